@@ -29,18 +29,23 @@ RULE = ("case 'conv' = (generated DBC matrix with unique frame names, signal nam
         "30 % of the extended identifiers are numbers below 0x800. receivers and user attributes, and the ECU list closed under references. Non-trivial = distinct case with an option that "
         "changes the matrix.  Two further streams reach the options the model has no field for, by the converter call they are documented "
         "to equal: (merge) a main file and one or two other files (frame names disjoint, some identifiers shared with the main file), "
-        "--merge file[:frame=A][:frame=B]...[,file2] with no, one or several frame selectors per file (repeated and unknown names among them), "
-        "alone, after --frames, or followed by one other option; judged as the selection of the main frames followed by the merged frames "
-        "out of the union of the files (copy.copy_frame one by one, the clause of --frames).  (signals) --signals with one to three names or "
+        "--merge file[:frame=A][:ecu=X][:frame=B]...[,file2] with no, one or several frame= and ecu= selectors per file, in any order (repeated and "
+        "unknown names among them; ECUs of the other file that send, that only receive, that do both, that have no frame there, names the "
+        "other file does not know, glob patterns), alone, after --frames, or followed by one other option; judged as the selection of the main "
+        "frames followed by the merged frames out of the union of the files (copy.copy_frame one by one, the clause of --frames), where ecu=X "
+        "stands for the frames of that file X sends, then the frames one of whose signals X receives, in file order.  (signals) --signals with one to three names or "
         "glob patterns (names that occur in several frames, overlapping patterns, unknown names), alone, with --frames or with a frame-level "
         "option; the free signals of the output (the DBC pseudo frame) are observed as a last frame and must be every signal a pattern "
         "selects, pattern by pattern and frame by frame, unchanged.")
 PARTIAL = ["compressFrame (C16), deleteObsoleteDefines (C11), signalNameFromAttrib and the ARXML/PDU-container rewrite are "
            "not modelled", "only DBC input and output files", "the selection options are specified by the model of copy.py (C12), not by "
            "an independent clause",
-           "merge: only whole files and frame= selectors, reduced to the --frames clause over the union of the files; ecu= selectors are not "
-           "generated (on the unchanged code --merge other.dbc:ecu=X removes every ECU of the main file that sends no frame, see "
-           "merge_ecu_selector_note in harness/props/c18.py); the ECU list of the main file holds referenced ECUs only in this stream",
+           "merge: whole files, frame= and ecu= selectors, reduced to the --frames clause over the union of the files.  That clause lists exactly "
+           "the ECUs the selected frames refer to, so an ECU-list entry without a frame cannot be expected through it: the ECU list of the main "
+           "file holds referenced ECUs only in this stream, and an ecu=X selector is generated only when X ends up referenced by a frame of the "
+           "result (X sends or receives a merged frame, or a frame of the main file refers to X) - that the named ECU itself is listed when "
+           "none of its frames arrives (no frame in the other file, or all identifiers taken in the main file) is not judged "
+           "(merge_ecu_listing_note in harness/props/c18.py)",
            "signals: the expected free signals (fnmatch selection, pattern by pattern, and the numbering the DBC writer gives to equal names within "
            "one frame) are computed by the harness and handed to the Lean judge as a frame of the input; options that edit signals are not "
            "paired with --signals (what they do to free signals is not documented)"]
@@ -209,10 +214,14 @@ OPTIONS = ["deleteEcu", "renameEcu", "deleteFrame", "renameFrame", "deleteSignal
 # is really called with (files, merge / signals argument, the other option); "m" and "o" are the converter call this is documented to
 # equal, in the shape the judge knows (reduce_real).  The driver ignores "real".
 # ---------------------------------------------------------------------------------------------------------------------
-# merge_ecu_selector_note: `--merge other.dbc:ecu=X` is copy.copy_ecu_with_frames(X, other, main) with direct_ecu_only=True, whose
-# clean-up (delete_indirect_ecus) runs over the *main* matrix: every ECU of the main file that sends no frame and is not X is removed
-# from the ECU list and from all receiver lists, and with two ecu= selectors the ECU selected first is removed by the second.  That is
-# a defect of the unchanged code ("Merges REAR_ECU out of second.dbc with source.dbc"); ecu= selectors are kept out of the stream.
+# `--merge other.dbc:ecu=X` is copy.copy_ecu_with_frames(X, other, main, direct_ecu_only=False): X (a glob pattern over the ECU list of the
+# other file) is added to the ECU list of the main matrix, then every frame X sends, then every frame one of whose signals X receives is
+# copied with copy.copy_frame, in the order of the other file; everything of the main matrix stays.  In the judge's shape that is the
+# --frames clause over the union of the files with these frame names appended (ecu_frame_names).
+# merge_ecu_listing_note: the --frames clause lists the ECUs the selected frames refer to and no others.  The one part of the documented
+# effect it cannot say is "X is listed although no frame refers to it" (X has no frame in the other file, or every frame of X has an
+# identifier the main file uses already, and no frame of the main file refers to X).  reduce_real returns None for these calls and the
+# generator draws the selectors again; they are not judged.
 SAFE_WITH_SIGNALS = ["deleteFrame", "renameFrame", "setFrameFd", "unsetFrameFd", "skipLongDlc", "deleteFrameAttributes", "changeFrameId"]
 
 
@@ -248,14 +257,78 @@ def select_signals(m, pats):
     return out
 
 
+def is_ecu_sel(item):
+    """a selector of a merged file: a frame name (text) or ["ecu", name or glob pattern]"""
+    return not isinstance(item, str)
+
+
+def sel_text(sel):
+    return "".join((":ecu=" + it[1]) if is_ecu_sel(it) else (":frame=" + it) for it in (sel or []))
+
+
+def refs_of(f):
+    return f["tx"] + [r for s in f["sigs"] for r in s["receivers"]]
+
+
+def ecus_matching(om, pat):
+    return [e for e in om["ecus"] if fnmatch.fnmatchcase(e, pat)]
+
+
+def ecu_frame_names(om, pat):
+    """the documented effect of ecu=pat on the file om, as frame names in the order they are merged: per selected ECU the frames it
+    sends, then the frames one of whose signals it receives"""
+    names = []
+    for e in ecus_matching(om, pat):
+        names += [f["name"] for f in om["frames"] if e in f["tx"]]
+        names += [f["name"] for f in om["frames"] if any(e in s["receivers"] for s in f["sigs"])]
+    return names
+
+
+def ecu_kind(om, pat):
+    if any(ch in pat for ch in "*?["):
+        return "glob pattern"
+    if pat not in om["ecus"]:
+        return "unknown to the file"
+    tx = any(pat in f["tx"] for f in om["frames"])
+    rx = any(pat in s["receivers"] for f in om["frames"] for s in f["sigs"])
+    return {(True, True): "sends and receives", (True, False): "only sends", (False, True): "only receives", (False, False): "has no frame"}[(tx, rx)]
+
+
+def frames_selected(m, names):
+    """the frames the --frames clause selects (a name the matrix does not know: None; an identifier only once)"""
+    out = []
+    for n in names:
+        f = next((g for g in m["frames"] if g["name"] == n), None)
+        if f is None:
+            return None
+        if all((g["id"], g["ext"]) != (f["id"], f["ext"]) for g in out):
+            out.append(f)
+    return out
+
+
 def reduce_real(real):
     """(m, o) in the judge's shape, or None"""
     o = dict(real["o"])
     if real["kind"] == "merge":
         m = union_of(real["main"], real["others"])
         names = list(o["frames"]) if "frames" in o else frame_names(real["main"])
+        named = []
         for k, sel in real["merge"]:
-            names += frame_names(real["others"][k]) if sel is None else list(sel)
+            om = real["others"][k]
+            if sel is None:
+                names += frame_names(om)
+                continue
+            for it in sel:
+                if is_ecu_sel(it):
+                    names += ecu_frame_names(om, it[1])
+                    named += ecus_matching(om, it[1])
+                else:
+                    names.append(it)
+        result = frames_selected(m, names)
+        if result is not None:
+            referenced = {e for f in result for e in refs_of(f)}
+            if any(e not in referenced for e in named):
+                return None                  # merge_ecu_listing_note
         o["frames"] = names
         return m, o
     free = select_signals(real["main"], real["signals"])
@@ -273,6 +346,39 @@ def make_case(real, cli):
     return {"op": "conv", "c": {"m": mo[0], "o": mo[1], "cli": cli, "real": real}}
 
 
+def gen_ecu_selector(rng, om, main):
+    """an ECU of the other file by what it does there, a name that file does not know, or a glob pattern"""
+    by_kind = collections.defaultdict(list)
+    for e in om["ecus"]:
+        by_kind[ecu_kind(om, e)].append(e)
+    want = rng.choice(["sends and receives", "only sends", "only receives", "only receives", "has no frame", "unknown", "glob"])
+    if want == "unknown":
+        return rng.choice(["Nope"] + [e for e in ECUS if e not in om["ecus"]])      # among them names only the main file knows
+    if want == "glob":
+        return rng.choice(["ECU_*", "*", "B*", "[DG]*", "?w"])
+    return rng.choice(by_kind[want] or om["ecus"])
+
+
+def gen_selectors(rng, om, main):
+    names = frame_names(om)
+    n = rng.choice([1, 2, 2, 3, 3, 4])
+    mode = rng.choice(["frames", "ecus", "ecus", "mixed", "mixed"])
+    if mode == "frames":
+        sel = [rng.choice(names) for _ in range(n)] if rng.random() < 0.3 else rng.sample(names, min(n, len(names)))
+    else:
+        sel = []
+        for _ in range(n):
+            if mode == "mixed" and rng.random() < 0.5:
+                sel.append(rng.choice(names))
+            else:
+                sel.append(["ecu", gen_ecu_selector(rng, om, main)])
+        if rng.random() < 0.15:
+            sel.append(rng.choice(sel))                                             # one selector twice
+    if rng.random() < 0.08:
+        sel.insert(rng.randrange(len(sel) + 1), "Nope")
+    return sel
+
+
 def gen_merge(rng):
     main = gen_matrix(rng)
     used = {e for f in main["frames"] for e in f["tx"] + [r for s in f["sigs"] for r in s["receivers"]]}
@@ -287,23 +393,18 @@ def gen_merge(rng):
                 if all((h["id"], h["ext"]) != (g["id"], g["ext"]) for h in om["frames"]):
                     f["id"], f["ext"] = g["id"], g["ext"]
         others.append(om)
-    merge = []
-    for k, om in enumerate(others):
-        r = rng.random()
-        if r < 0.25:
-            merge.append([k, None])
-        else:
-            names = frame_names(om)
-            n = rng.choice([1, 2, 2, 3, 3, 4])
-            sel = [rng.choice(names) for _ in range(n)] if rng.random() < 0.3 else rng.sample(names, min(n, len(names)))
-            if rng.random() < 0.08:
-                sel.insert(rng.randrange(len(sel) + 1), "Nope")
-            merge.append([k, sel])
     o = {}
     if rng.random() < 0.6:
         name = rng.choice([x for x in OPTIONS if x != "ecus"])
         o[name] = gen_option(rng, main if name == "frames" else union_of(main, others), name)
-    return {"kind": "merge", "main": main, "others": others, "merge": merge, "o": o}
+    for _ in range(20):
+        merge = []
+        for k, om in enumerate(others):
+            merge.append([k, None if rng.random() < 0.2 else gen_selectors(rng, om, main)])
+        real = {"kind": "merge", "main": main, "others": others, "merge": merge, "o": o}
+        if reduce_real(real) is not None:
+            return real
+    return {"kind": "merge", "main": main, "others": others, "merge": [[k, None] for k in range(len(others))], "o": o}
 
 
 def gen_signals(rng):
@@ -400,7 +501,7 @@ def real_call(c, d):
             if not os.path.exists(path):
                 with open(path, "wb") as f:
                     canmatrix.formats.dump(build(real["others"][k]), f, "dbc")
-            items.append(path + "".join(":frame=" + n for n in (sel or [])))
+            items.append(path + sel_text(sel))
         extra["merge"] = ",".join(items)
     else:
         extra["signals"] = ",".join(real["signals"])
@@ -463,7 +564,26 @@ def features(case, impl):
         yield "opt:merge"
         yield "merge:files=%d" % len(real["merge"])
         for k, sel in real["merge"]:
-            yield "merge:whole file" if sel is None else "merge:frame selectors=%d%s" % (len(sel), " (one twice)" if len(set(sel)) < len(sel) else "")
+            if sel is None:
+                yield "merge:whole file"
+                continue
+            fsel = [it for it in sel if not is_ecu_sel(it)]
+            esel = [it[1] for it in sel if is_ecu_sel(it)]
+            if fsel:
+                yield "merge:frame selectors=%d%s" % (len(fsel), " (one twice)" if len(set(fsel)) < len(fsel) else "")
+            if esel:
+                yield "merge:ecu selectors=%d%s" % (len(esel), " (one twice)" if len(set(esel)) < len(esel) else "")
+                om = real["others"][k]
+                for pat in esel:
+                    yield "merge:ecu selector, ECU " + ecu_kind(om, pat)
+                    if pat in real["main"]["ecus"]:
+                        yield "merge:ecu selector, ECU also in the main file"
+                got = [n for pat in esel for n in ecu_frame_names(om, pat)]
+                yield "merge:ecu selectors bring %s frames" % (len(set(got)) if len(set(got)) < 3 else "3+")
+                if len(set(got)) < len(got):
+                    yield "merge:ecu selectors, one frame selected several times"
+            if fsel and esel:
+                yield "merge:ecu and frame selectors mixed"
         main_ids = {(f["id"], f["ext"]) for f in real["main"]["frames"]}
         if any((f["id"], f["ext"]) in main_ids for om in real["others"] for f in om["frames"]):
             yield "merge:identifier of the main file in another file"
@@ -552,7 +672,7 @@ def recipe(case):
     c = case["c"]
     real = c.get("real")
     if real and real["kind"] == "merge":
-        arg = ",".join("other%d.dbc" % k + "".join(":frame=" + n for n in (sel or [])) for k, sel in real["merge"])
+        arg = ",".join("other%d.dbc" % k + sel_text(sel) for k, sel in real["merge"])
         return ("canconvert " + " ".join(cli_args(real["o"]) + ["--merge=" + arg]) + " in.dbc out.dbc   (in.dbc = canmatrix.formats.dump("
                 "props.c18.build(case['c']['real']['main']), 'dbc'), other<k>.dbc likewise from case['c']['real']['others'][k]; expected: "
                 "canconvert " + " ".join(cli_args(c["o"])) + " on the file holding the frames of all of them)")
